@@ -2,7 +2,7 @@
 (* Families of VTIMEZONE definitions given by parameters; per zone the probes    *)
 (* (every onset -1/0/+1 minute and midpoints) with the admissible answers.       *)
 EXTENDS VTimezone, Json
-CONSTANTS Y0s, OffPairs, Ends, Fixed
+CONSTANTS Y0s, OffPairs, Ends, Fixed, Cross
 VARIABLE z        \* sequence of observance parameter records
 
 None == [k |-> "none", set |-> {}, m |-> 0, n |-> 0, w |-> 0, hm |-> 0, y0 |-> 0, endk |-> "", endv |-> 0]
@@ -32,7 +32,12 @@ ThreeZones == {<<Ob("STANDARD", "OLD", p[1] - 60, p[1] - 60, Minutes(1970, 1, 1,
                  Ob("DAYLIGHT", "DST", p[1] - 60, p[2], Minutes(y0, 3, 1, 0), RDate({})),
                  Ob("DAYLIGHT", "DST", p[1], p[2], YStart(3, -1, 0, 120, y0 + 1), Yearly(3, -1, 0, 120, y0 + 1, "open", 0))>> :
                  y0 \in Y0s, p \in OffPairs}
-Init == z \in FixedZones \cup YearlyZones \cup RDateZones \cup ThreeZones
+\* two observances whose onsets keep one order in local time and the other in UTC (far-apart TZOFFSETFROM)
+CrossZones == {<<Ob("STANDARD", "A", a, 0, Minutes(2001, 6, 1, 600), None),
+                 Ob("DAYLIGHT", "B", b, 60, Minutes(2001, 6, 1, 600 - d), None),
+                 Ob("STANDARD", "C", 60, 0, Minutes(2002, 6, 1, 0), None)>> :
+                 a \in {840, 600}, b \in {-720, -300}, d \in {30, 240}}
+Init == z \in FixedZones \cup YearlyZones \cup RDateZones \cup ThreeZones \cup (IF Cross THEN CrossZones ELSE {})
 Next == UNCHANGED z
 Spec == Init /\ [][Next]_z
 
@@ -45,11 +50,17 @@ Answers ==
         first == CHOOSE a \in T : \A b \in T : a <= b
         good == {t \in ProbesOf(T) : t >= first}
     IN [t \in good |-> LET act == ActiveIn(ons, t) IN
-                         [off |-> {zone[i].to : i \in act}, name |-> {zone[i].name : i \in act}, kind |-> {zone[i].kind : i \in act}]]
+                         [off |-> {zone[i].to : i \in act}, name |-> {zone[i].name : i \in act}, kind |-> {zone[i].kind : i \in act},
+                          impl |-> ImplAnswer(zone, t)]]
 \* Ref cross-check: the answer is unique whenever no two observances share an onset instant
 InvUnique == LET a == Answers
                  ons == Onsets(Zone)
              IN (\A x, y \in ons : x.t = y.t => x.i = y.i) => \A t \in DOMAIN a : Cardinality(a[t].off) = 1
 InvNonEmpty == DOMAIN Answers # {}
+\* the pytz-path mirror answers like Ref wherever Ref is unambiguous (refuted on CrossZones: local order # UTC order)
+InvPytzMirror == LET zone == Zone
+                     a == Answers
+                 IN \A t \in DOMAIN a : Cardinality(a[t].off) = 1 =>
+                        LET m == ImplAnswer(zone, t) IN m.off \in a[t].off /\ m.name \in a[t].name
 Vec == PrintT(ToJson([z |-> z, probes |-> Answers]))
 =============================================================================
